@@ -9,6 +9,13 @@ import SlipVerif.Model.SliceProg
 -/
 namespace SlipVerif.SliceProg
 
+/-- verification condition of `for _, a := range xs { body }`, `W` = the condition generator of the body -/
+def wpArgs (W : (St → Prop) → St → Prop) (a : Nat) : List Obj → (St → Prop) → St → Prop
+  | [], Q, s => Q s
+  | x :: rest, Q, s =>
+    if s.halt.isSome then Q s
+    else W (fun s1 => wpArgs W a rest Q s1) { s with ov := upd s.ov a x }
+
 def wp : Stmt → (St → Prop) → St → Prop
   | .seq a b, Q, s => wp a (fun s1 => if s1.halt.isSome then Q s1 else wp b Q s1) s
   | .ite c t e, Q, s => (evalB s c = true → wp t Q s) ∧ (evalB s c = false → wp e Q s)
@@ -28,7 +35,7 @@ def wp : Stmt → (St → Prop) → St → Prop
   | .setIdx v i e, Q, s => (setIdxOk v i e s = true → Q (setIdxStep v i e s)) ∧ (setIdxOk v i e s = false → Q (fault s))
   | .swap v i j, Q, s => (swapOk v i j s = true → Q (swapStep v i j s)) ∧ (swapOk v i j s = false → Q (fault s))
   | .forDown k i b, Q, s => Q (exec (.forDown k i b) s)
-  | .forArgs a d b, Q, s => Q (exec (.forArgs a d b) s)
+  | .forArgs a d b, Q, s => wpArgs (wp b) a (if d then s.args.reverse else s.args) Q s
 
 theorem wp_sound : ∀ (p : Stmt) (Q : St → Prop) (s : St), wp p Q s → Q (exec p s) := by
   intro p
@@ -94,7 +101,21 @@ theorem wp_sound : ∀ (p : Stmt) (Q : St → Prop) (s : St), wp p Q s → Q (ex
     · rename_i hc; exact h.1 hc
     · rename_i hc; exact h.2 (by simpa using hc)
   | forDown k i b _ => intro Q s h; exact h
-  | forArgs a d b _ => intro Q s h; exact h
+  | forArgs a d b ih =>
+    intro Q s h
+    simp only [wp] at h
+    simp only [exec]
+    generalize (if d = true then s.args.reverse else s.args) = xs at h ⊢
+    induction xs generalizing s with
+    | nil => simpa [wpArgs, loopArgs] using h
+    | cons x rest ihx =>
+      simp only [wpArgs] at h
+      simp only [loopArgs]
+      split
+      · rename_i hh; simp only [hh, if_true] at h; exact h
+      · rename_i hh
+        simp only [hh] at h
+        exact ihx _ (ih _ _ h)
 
 def outcome (s : St) : Outcome := ⟨s.halt, s.place, s.wrote⟩
 
@@ -104,5 +125,53 @@ theorem run_eq (p : Stmt) (args : List Obj) : run p args = outcome (exec p (init
 theorem run_of_wp (p : Stmt) (args : List Obj) (P : Outcome → Prop)
     (h : wp p (fun s => P (outcome s)) (init args)) : P (run p args) := by
   rw [run_eq]; exact wp_sound p _ _ h
+
+/-! ### finishing the arithmetic / list conditions -/
+
+theorem take_eq_self_iff {α : Type} (l : List α) (n : Nat) : l.take n = l ↔ l.length ≤ n := by
+  constructor
+  · intro h
+    have := congrArg List.length h
+    simp [List.length_take] at this
+    omega
+  · exact List.take_of_length_le
+
+theorem drop_eq_self_iff {α : Type} (l : List α) (n : Nat) : l.drop n = l ↔ n = 0 ∨ l.length = 0 := by
+  constructor
+  · intro h
+    have := congrArg List.length h
+    simp [List.length_drop] at this
+    omega
+  · rintro (h | h)
+    · simp [h]
+    · simp [List.length_eq_zero_iff.mp h]
+
+theorem self_eq_drop_iff {α : Type} (l : List α) (n : Nat) : l = l.drop n ↔ n = 0 ∨ l.length = 0 := by
+  rw [eq_comm]; exact drop_eq_self_iff l n
+
+/-- make(n) followed by copy from a source at least as long: the first n elements of the source -/
+theorem copyVals_make (d o : List Val) (h : d.length ≤ o.length) : copyVals d o = o.take d.length := by
+  simp [copyVals, List.drop_eq_nil_iff]
+  omega
+
+/-- unfold the verification condition of a translated program (give the program's name) -/
+macro "vc" "[" ts:Lean.Parser.Tactic.simpLemma,* "]" : tactic =>
+  `(tactic| simp [wp, wpArgs, init, listArg, evalB, evalI, evalO, okO, upd, Obj.vals, Obj.asSl, fault, outcome, copyStep,
+      setIdxOk, setIdxStep, swapOk, swapStep, sliceOrg, goAppend, intsOf, Obj.isFresh, Obj.isTailOf, Origin.argOf, Int.sub_sub_self, $ts,*])
+
+/-- close a condition about lengths, take and drop -/
+macro "fin" : tactic => `(tactic| (
+  repeat' (first | intro _ | apply And.intro)
+  all_goals (first
+    | omega
+    | (simp (disch := first | omega | (simp only [List.length_take, List.length_drop, List.length_replicate, List.length_tail, List.length_reverse, List.length_append, List.length_cons, List.length_nil]; omega))
+        [copyVals_make, take_eq_self_iff, drop_eq_self_iff, self_eq_drop_iff, Int.sub_sub_self, Int.toNat_natCast, Int.toNat_sub,
+         List.length_drop, List.length_take, List.take_take, List.length_tail, List.length_replicate, *]; done)
+    | (simp (disch := first | omega | (simp only [List.length_take, List.length_drop, List.length_replicate, List.length_tail, List.length_reverse, List.length_append, List.length_cons, List.length_nil]; omega))
+        [copyVals_make, take_eq_self_iff, drop_eq_self_iff, self_eq_drop_iff, Int.sub_sub_self, Int.toNat_natCast, Int.toNat_sub,
+         List.length_drop, List.length_take, List.take_take, List.length_tail, List.length_replicate] at * <;> omega)
+    | (simp_all [take_eq_self_iff, drop_eq_self_iff, self_eq_drop_iff, List.length_drop, List.length_take, List.take_take, List.length_tail]; done)
+    | (simp only [← List.length_eq_zero_iff, take_eq_self_iff, drop_eq_self_iff, self_eq_drop_iff, List.length_drop, List.length_take, List.take_take, List.length_tail] at * <;> omega)
+    | grind [take_eq_self_iff, drop_eq_self_iff, self_eq_drop_iff, List.length_tail, List.length_eq_zero_iff])))
 
 end SlipVerif.SliceProg
